@@ -1,37 +1,63 @@
 import Spine.TimeGlue
 import Spine.Generated.TimeLayouts
 /-!
-# C19, clause (d) — instants: the glue between formatting and parsing, over the layouts regenerated
-from `model/commondatatypes_additions.go` on every run (translator generator `timelayouts`).
+# C19, clause (d) — instants: the glue between formatting and parsing, over facts regenerated from the
+tree under test on every run (translator generator `timelayouts`).
 
-Only the glue is modelled: which layout formats, which layouts are tried for parsing and in which
-order, that the instant is rounded to the second and converted to UTC first. Calendar arithmetic and
-`time.Format` / `time.Parse` themselves are assumption A-time; the round trip on the real code is
-monitored by the harness for instants across years 1–9999 (`TestNumeric`, ops `instant`, `instantns`).
-A change of a layout in the code re-checks these theorems (a failure is reported as a broken proof
-obligation).
+Only the glue is modelled. Calendar arithmetic and `time.Format` / `time.Parse` themselves are assumption
+A-time; the round trip on the real code is monitored by the harness for instants across years 1–9999
+(`TestNumeric`, ops `instant`, `instantns`, `date`, `tod`).
+
+The facts come in two independent derivations (see `go/cmd/translate/gen_timelayouts.go`):
+* DYNAMIC (authoritative): which text shapes the real `GetTime` methods accept and read as the right
+  instant, which shape `NewDateTimeTypeFromTime` writes, whether it rounds to the second and converts to
+  UTC — obtained by probing the compiled code, so no refactoring of the source text can disturb them;
+* STATIC (cross-check): the layout strings found in the source by structural search. They may be
+  "unknown" after a refactoring (`astParseKnown`, `astFormatKnown`); the theorems over them are guarded,
+  so they can become vacuous but a layout that is found and contradicts the glue breaks the obligation.
 -/
 namespace Spine.Props.C19Layouts
 open Spine.Generated.TimeLayouts Spine.TG
 
-/-- some layout tried by `GetTime` accepts the text formatted from a whole-second instant, and the first
-    that does differs from the formatting layout at most by the optional fraction: every field and the literal `Z` are read back
-    by the element that wrote them (so, under A-time, the instant read is the instant written) -/
-theorem c19_datetime_first_match :
+/-- the text shape `NewDateTimeTypeFromTime` writes is one that `DateTimeType.GetTime` accepts and reads
+    as the instant it denotes (dynamic) -/
+theorem c19_datetime_written_is_read :
+    dateTimeWrittenKnown = true ∧ dateTimeAccepts.contains dateTimeWritten = true := by decide
+
+/-- the instant is rounded to the whole second and converted to UTC before it is written, and the
+    written shape carries no fraction (dynamic) -/
+theorem c19_datetime_whole_second_utc :
+    dateTimeRoundsToSecondDyn = true ∧ dateTimeConvertsToUTCDyn = true ∧
+    stripFrac dateTimeWritten = dateTimeWritten := by decide
+
+/-- every getter accepts the plain form and the form with the literal `Z` (dynamic) -/
+theorem c19_plain_and_z_forms :
+    (dateTimeAccepts.any fun l => l.getLast? = some 2) = true ∧
+    (dateAccepts.any fun l => l.getLast? = some 2) = true ∧ (timeAccepts.any fun l => l.getLast? = some 2) = true ∧
+    (dateTimeAccepts.any fun l => !l.contains 1 && !l.contains 2 && !l.contains 3 && !l.contains 4) = true ∧
+    (dateAccepts.any fun l => !l.contains 1 && !l.contains 2 && !l.contains 3 && !l.contains 4) = true ∧
+    (timeAccepts.any fun l => !l.contains 1 && !l.contains 2 && !l.contains 3 && !l.contains 4) = true := by decide
+
+/-- static cross-check: where the layouts could be recovered from the source, some layout tried by
+    `GetTime` accepts the text formatted from a whole-second instant, and the first that does differs from
+    the formatting layout at most by the optional fraction: every field and the literal `Z` are read back
+    by the element that wrote them -/
+theorem c19_ast_first_match :
+    (astParseKnown && astFormatKnown) = false ∨
     (firstMatch dateTimeParse dateTimeFormat).map stripFrac = some dateTimeFormat := by decide
 
-/-- the instant is rounded to the whole second and converted to UTC before it is formatted, and the
-    formatting layout has no fraction element and ends in the literal `Z` (read as UTC by
-    `ParseInLocation(…, time.UTC)`) -/
-theorem c19_datetime_whole_second_utc :
-    dateTimeRoundsToSecond = true ∧ dateTimeConvertsToUTC = true ∧
-    stripFrac dateTimeFormat = dateTimeFormat ∧ dateTimeFormat.getLast? = some 2 := by decide
+/-- static cross-check: where found, the formatting layout is the shape observed, and a rounding to the
+    second and a conversion to UTC are on the way to it -/
+theorem c19_ast_format_agrees :
+    (astFormatKnown && dateTimeWrittenKnown) = false ∨
+    (dateTimeFormat = dateTimeWritten ∧ dateTimeRoundsToSecond = true ∧ dateTimeConvertsToUTC = true) := by decide
 
-/-- every list of parsing layouts offers the plain form and the form with the literal `Z` -/
-theorem c19_plain_and_z_forms :
-    (dateTimeParse.any fun l => l.getLast? = some 2) = true ∧
-    (dateParse.any fun l => l.getLast? = some 2) = true ∧ (timeParse.any fun l => l.getLast? = some 2) = true ∧
-    (dateParse.any fun l => !l.contains 2 && !l.contains 3 && !l.contains 4) = true ∧
-    (timeParse.any fun l => !l.contains 1 && !l.contains 2 && !l.contains 3 && !l.contains 4) = true := by decide
+/-- static cross-check: where found, every layout in the source (except those containing the text
+    "+07:00", which is not a zone element) denotes a shape the real getter accepts -/
+theorem c19_ast_layouts_accepted :
+    astParseKnown = false ∨
+    ((dateTimeParse.all fun l => l.contains 4 || dateTimeAccepts.contains (stripFrac l)) = true ∧
+     (dateParse.all fun l => l.contains 4 || dateAccepts.contains (stripFrac l)) = true ∧
+     (timeParse.all fun l => l.contains 4 || timeAccepts.contains (stripFrac l)) = true) := by decide
 
 end Spine.Props.C19Layouts
